@@ -14,6 +14,7 @@ RULE = (
     "when it contains at least one operator node and at least one variable; distinct = distinct descriptor hash. "
     "Oracle: claripy's Z3 translation of the returned AST == independently built Z3 term (solver, all assignments); "
     "and the tree rebuilt on constants folds to the pure-Python SMT-LIB value (all assignments when <= 6 var bits)."
+    " Session 4: one-piece-changed near misses of every multi-step matcher (min/max idiom, rotate-shift-mask, narrower rotations), third operands in commutative nodes, and an annotated shard (the same shapes with annotations on random leaves and nodes)."
 )
 ASSUMPTIONS = [
     "z3-solver 4.13 decides QF_BV equivalence correctly (terms built by vf/ref/z3ref.py in a private context)",
